@@ -1105,6 +1105,184 @@ def generate_expl():
     return "\n".join(lines) + "\n"
 
 
+ONLINE_GLUE_FILE = "rtamt/semantics/abstract_online_interpreter.py"
+AST_VISITOR_FILE = "rtamt/syntax/ast/visitor/abstract_ast_visitor.py"
+OUT_GLUE = os.path.join(os.path.dirname(HERE), "lean", "Rtamt", "Py", "GeneratedGlue.lean")
+
+
+class GlueTr:
+    """Methods of the update / reset visitors of the online interpreter -> terms of `Rtamt/Py/Glue.lean`."""
+
+    def __init__(self, cls, leaf_cls=None, base_cls=None):
+        self.methods = {n.name: n for n in cls.body if isinstance(n, ast.FunctionDef)}
+        self.leaf = {n.name: n for n in leaf_cls.body if isinstance(n, ast.FunctionDef)} if leaf_cls is not None else {}
+        self.base = {n.name: n for n in base_cls.body if isinstance(n, ast.FunctionDef)} if base_cls is not None else {}
+        self.in_spec_loop = False
+
+    def key(self, e):
+        return {"node.name": ".nodeName", "node": ".node", "node.var": ".nodeVar"}.get(src(e))
+
+    def is_visit_call(self, e):
+        return isinstance(e, ast.Call) and src(e.func) == "self.visit" and e.args
+
+    def expr(self, e):
+        t = src(e)
+        if isinstance(e, ast.Name):
+            return "(.loc %s)" % q(e.id)
+        if self.is_visit_call(e):
+            a0 = e.args[0]
+            if isinstance(a0, ast.Subscript) and src(a0.value) == "node.children" and isinstance(a0.slice, ast.Constant) \
+                    and isinstance(a0.slice.value, int) and a0.slice.value >= 0:
+                return "(.visit %d)" % a0.slice.value
+            if self.in_spec_loop and src(a0) == "spec":
+                return ".visitSpec"
+        if isinstance(e, ast.Compare) and len(e.ops) == 1 and isinstance(e.ops[0], ast.In) and isinstance(e.comparators[0], ast.Attribute) \
+                and src(e.comparators[0].value) == "self" and self.key(e.left):
+            return "(.inDict %s %s)" % (q(e.comparators[0].attr), self.key(e.left))
+        if isinstance(e, ast.Subscript) and self.key(e.slice):
+            if isinstance(e.value, ast.Attribute) and src(e.value.value) == "self":
+                return "(.getDict %s %s)" % (q(e.value.attr), self.key(e.slice))
+            if isinstance(e.value, ast.Name):
+                return "(.getDict %s %s)" % (q(e.value.id), self.key(e.slice))
+        if isinstance(e, ast.Call) and isinstance(e.func, ast.Attribute) and e.func.attr == "update" and isinstance(e.func.value, ast.Name) \
+                and not e.keywords:
+            return "(.opUpdate %s [%s])" % (q(e.func.value.id), ", ".join(self.expr(a) for a in e.args))
+        if t == "node.val":
+            return ".nodeVal"
+        if t == "node.field":
+            return ".nodeField"
+        if t == "isinstance(node, Constant)":
+            return ".isConst"
+        if t == "isinstance(node, Variable)":
+            return ".isVar"
+        if isinstance(e, ast.List) and not e.elts:
+            return ".emptyList"
+        return "(.unsupported %s)" % q(t)
+
+    def seq(self, items):
+        items = [i for i in items if i != ".skip"]
+        if not items:
+            return ".skip"
+        out = items[-1]
+        for i in reversed(items[:-1]):
+            out = "(.seq %s %s)" % (i, out)
+        return out
+
+    def block(self, stmts):
+        return self.seq([self.stmt(s) for s in stmts])
+
+    def inline_leaf(self, call, target):
+        """`target = self.visitConstant(node, …)`: the body of the leaf visitor's method, its `return e` assigned to `target`."""
+        m = self.leaf.get(call.func.attr)
+        if m is None or not call.args or src(call.args[0]) != "node":
+            return None
+        body = list(m.body)
+        if not body or not isinstance(body[-1], ast.Return) or body[-1].value is None \
+                or any(isinstance(x, ast.Return) for st in body[:-1] for x in ast.walk(st)):
+            return "(.unsupported %s)" % q("return inside " + m.name)
+        ret = body.pop().value
+        items = [self.block(body)]
+        if not (isinstance(ret, ast.Name) and ret.id == target):
+            items.append("(.setLoc %s %s)" % (q(target), self.expr(ret)))
+        return self.seq(items)
+
+    def stmt(self, s):
+        if isinstance(s, ast.Pass):
+            return ".skip"
+        if isinstance(s, ast.Expr) and isinstance(s.value, ast.Constant):
+            return ".skip"
+        if isinstance(s, ast.Assign) and len(s.targets) == 1:
+            t, v = s.targets[0], s.value
+            if isinstance(t, ast.Name):
+                if isinstance(v, ast.Call) and isinstance(v.func, ast.Attribute) and src(v.func.value) == "self" and v.func.attr in self.leaf:
+                    r = self.inline_leaf(v, t.id)
+                    if r is not None:
+                        return r
+                return "(.setLoc %s %s)" % (q(t.id), self.expr(v))
+            if isinstance(t, ast.Subscript) and isinstance(t.value, ast.Attribute) and src(t.value.value) == "self" and self.key(t.slice):
+                return "(.setDict %s %s %s)" % (q(t.value.attr), self.key(t.slice), self.expr(v))
+            if isinstance(t, ast.Attribute) and src(t.value) == "self" and src(v) == "dict()":
+                return "(.clearDict %s)" % q(t.attr)
+        if isinstance(s, ast.If):
+            return "(.ite %s %s %s)" % (self.expr(s.test), self.block(s.body), self.block(s.orelse))
+        if isinstance(s, ast.Expr) and isinstance(s.value, ast.Call):
+            c = s.value
+            if src(c.func) == "self.visitChildren" and c.args and src(c.args[0]) == "node":
+                return ".visitChildren"
+            if isinstance(c.func, ast.Attribute) and c.func.attr == "reset" and isinstance(c.func.value, ast.Name) and not c.args and not c.keywords:
+                return "(.opReset %s)" % q(c.func.value.id)
+            if isinstance(c.func, ast.Attribute) and c.func.attr == "append" and isinstance(c.func.value, ast.Name) and len(c.args) == 1:
+                return "(.appendLoc %s %s)" % (q(c.func.value.id), self.expr(c.args[0]))
+        if isinstance(s, ast.For) and not s.orelse and src(s.target) == "spec" and src(s.iter) == "ast.specs":
+            self.in_spec_loop = True
+            try:
+                return "(.forSpecs %s)" % self.block(s.body)
+            finally:
+                self.in_spec_loop = False
+        return "(.unsupported %s)" % q(src(s))
+
+    def method(self, name):
+        m = self.methods.get(name)
+        if m is None:
+            return None
+        body = list(m.body)
+        ret = "none"
+        if body and isinstance(body[-1], ast.Return):
+            r = body.pop()
+            if r.value is not None:
+                v = r.value
+                # `return super(C, self).visitAst(ast, …)`: the inherited method, inlined
+                if isinstance(v, ast.Call) and isinstance(v.func, ast.Attribute) and isinstance(v.func.value, ast.Call) \
+                        and src(v.func.value.func) == "super" and v.func.attr in self.base:
+                    pm = self.base[v.func.attr]
+                    pb = list(pm.body)
+                    if pb and isinstance(pb[-1], ast.Return) and pb[-1].value is not None \
+                            and not any(isinstance(x, ast.Return) for st in pb[:-1] for x in ast.walk(st)):
+                        pr = pb.pop().value
+                        body = body + pb
+                        ret = "(some %s)" % self.expr(pr)
+                    else:
+                        ret = "(some (.unsupported %s))" % q(src(v))
+                else:
+                    ret = "(some %s)" % self.expr(v)
+        if any(isinstance(x, ast.Return) for st in body for x in ast.walk(st)):
+            return "{ body := (.unsupported %s), ret := none }" % q("return inside " + name)
+        return "{ body := %s, ret := %s }" % (self.block(body), ret)
+
+
+def generate_glue():
+    """The update visitor and the reset visitor of the online interpreter."""
+    tree = ast.parse(open(os.path.join(REPO, ONLINE_GLUE_FILE)).read())
+    cls = {n.name: n for n in tree.body if isinstance(n, ast.ClassDef)}
+    tree2 = ast.parse(open(os.path.join(REPO, ONLINE_INTERP_FILE)).read())
+    cls2 = {n.name: n for n in tree2.body if isinstance(n, ast.ClassDef)}
+    tree3 = ast.parse(open(os.path.join(REPO, AST_VISITOR_FILE)).read())
+    cls3 = {n.name: n for n in tree3.body if isinstance(n, ast.ClassDef)}
+    lines = ["/- GENERATED by harness/py2lean.py from %s, %s and %s of /repo on every run - do not edit. -/"
+             % (ONLINE_GLUE_FILE, ONLINE_INTERP_FILE, AST_VISITOR_FILE),
+             "import Rtamt.Py.Glue", "", "namespace Rtamt.Py.Gen.Glue", "open Rtamt Rtamt.Py", ""]
+    missing = "{ body := (.unsupported \"missing\"), ret := none }"
+    up = GlueTr(cls["AbstractOnlineUpdateVisitor"], cls2.get("DiscreteTimeOnlineUpdateVisitor"), cls3.get("AbstractAstVisitor")) \
+        if "AbstractOnlineUpdateVisitor" in cls else None
+    rs = GlueTr(cls["AbstractOnlineResetVisitor"], None, cls3.get("AbstractAstVisitor")) if "AbstractOnlineResetVisitor" in cls else None
+    for tag, tr, cname, names in (("update", up, "AbstractOnlineUpdateVisitor", ["visitAst", "visitBinary", "visitUnary", "visitLeaf"]),
+                                  ("reset", rs, "AbstractOnlineResetVisitor", ["visitBinary", "visitUnary", "visitLeaf"])):
+        for nm in names:
+            t = (tr.method(nm) if tr is not None else None)
+            if t is None and nm == "visitAst" and tr is not None:
+                continue
+            lines.append("/-- `%s.%s` -/" % (cname, nm))
+            lines.append("def %s_%s : GMethod :=\n  %s" % (tag, nm, t or missing))
+            lines.append("")
+    # the reset visitor inherits visitAst
+    base = GlueTr(cls3["AbstractAstVisitor"]) if "AbstractAstVisitor" in cls3 else None
+    lines.append("/-- `AbstractAstVisitor.visitAst` (inherited by the reset visitor) -/")
+    lines.append("def base_visitAst : GMethod :=\n  %s" % ((base.method("visitAst") if base else None) or missing))
+    lines.append("")
+    lines.append("end Rtamt.Py.Gen.Glue")
+    return "\n".join(lines) + "\n"
+
+
 def write_if_changed(path, txt):
     old = open(path).read() if os.path.exists(path) else None
     if txt != old:
@@ -1118,6 +1296,7 @@ def main():
     write_if_changed(OUT_UNITS, generate_units())
     write_if_changed(OUT_CLOCK, generate_clock())
     write_if_changed(OUT_EXPL, generate_expl())
+    write_if_changed(OUT_GLUE, generate_glue())
     write_if_changed(OUT_HOR, generate_horizon())
     write_if_changed(OUT_PAST, generate_past())
     write_if_changed(OUT_ONCTOR, generate_onctor())
